@@ -31,6 +31,13 @@ pub use abe_policy::gen_structure;
 #[cfg(feature = "test-utils")]
 pub use test_utils::cc_keygen;
 
+/// Internal data structures, re-exported for the verification harness only
+/// (`RUSTFLAGS="--cfg cosmian_cover_crypt_verif"`); not part of the public API.
+#[cfg(cosmian_cover_crypt_verif)]
+pub mod verif_hooks {
+    pub use crate::data_struct::{Dict, RevisionMap, RevisionVec};
+}
+
 pub use self::core::{MasterPublicKey, MasterSecretKey, UserSecretKey, XEnc};
 pub use abe_policy::AccessPolicy;
 pub use encrypted_header::{CleartextHeader, EncryptedHeader};
